@@ -213,6 +213,9 @@ func (e *evalCtx) object(obj types.Object) Val {
 			if p.Pkg == o.Pkg() {
 				if g, ok := p.Members[o.Name()].(*ssa.Global); ok {
 					ptr := ptrVal(g.Type(), e.c.eng.globalRef(g), "0")
+					if _, isArr := o.Type().Underlying().(*types.Array); isArr {
+						return ptr // arrays are used through their address (indexing, slicing)
+					}
 					return e.load(ptr, o.Type())
 				}
 			}
@@ -550,6 +553,9 @@ func (e *evalCtx) call(t *ast.CallExpr) Val {
 		// onlyobjs(s1, s2, ...): among the objects that existed in the
 		// reference state (old state / loop entry), only those of s1, s2, ...
 		// have changed elements (of the element types of the arguments).
+		if c.bounded > 0 {
+			return boolVal("true") // bounded stand-in: frame facts are left out (no quantifiers)
+		}
 		ref := e.old
 		if ref == nil {
 			ref = e.loopEntry
@@ -596,6 +602,9 @@ func (e *evalCtx) call(t *ast.CallExpr) Val {
 		// sameoutside(s): every element of s's object outside
 		// [off(s), off(s)+len(s)) is as in the reference state (old state in a
 		// postcondition, loop entry in an invariant). Frame facts for loops.
+		if c.bounded > 0 {
+			return boolVal("true") // bounded stand-in: frame facts are left out (no quantifiers)
+		}
 		v := e.eval(t.Args[0])
 		if v.K != kSlice {
 			e.fail("sameoutside needs a slice")
